@@ -411,3 +411,95 @@ Theorem six_mentions_meaning up bl c t d bin ws ns a w word entry ok line :
        In (NushellProofs.NFx (NushellProofs.extern_line (negb (is_nil ns)) (bin ++ join_with [32] ns))) blk /\
        ok st /\ In (NushellProofs.NFx (st ++ NushellProofs.type_suffix a (bin ++ join_with [32] ns))) blk).
 Proof. repeat split; intros H; exact H. Qed.
+
+(** ---- subcommand words: names and visible aliases of the subcommands of the addressed command ---- *)
+(** zsh: the [_<bin>_commands] function of the addressed command is in the file and lists the word *)
+Definition zsh_lists_subcommand bl (c : cmd) (d : cdesc) (bin : bytes) (ns : list bytes) (w : bytes) : Prop :=
+  exists s nd n' about,
+    generate_zsh bl c d bin = Some s /\ bin_or_default n' = bin ++ join_with [32] ns /\
+    sublist (zrender (commands_function (bin_or_default n') (subcommands_of n' nd))) s /\
+    sublist (describe_entry about w) (subcommands_of n' nd).
+(** fish: a line starting with the path's condition (+ [-f] when the command has no positional) offers the word *)
+Definition fish_offers_subcommand (c : cmd) (d : cdesc) (bin : bytes) (ws : list bytes) (w : bytes) : Prop :=
+  exists b n' lines basic line,
+    build (set_bin_name c bin) = Some b /\ generate_fish c d bin = fish_script b (dbuild (set_bin_name c bin) d) /\
+    fish_lines b (dbuild (set_bin_name c bin) d) = Some lines /\
+    basic_template bin (fish_needs bin b) (fish_using bin b) ws n' = Some basic /\
+    In line lines /\ hd_error line = Some (Fx (sub_template basic n')) /\ In (sub_word w) line.
+(** nushell declares the subcommand under its NAME path (visible aliases of subcommands are not written: finding
+    nushell-subcommand-aliases): the block [export extern "bin n1 .. nk name"] exists *)
+Definition nushell_declares (c : cmd) (d : cdesc) (bin : bytes) (ns : list bytes) : Prop :=
+  exists s blk pre post,
+    NushellModel.generate_nushell c d bin = Some s /\ s = NushellProofs.nrender (pre ++ blk ++ post) /\
+    In (NushellProofs.NFx (NushellProofs.extern_line (negb (is_nil ns)) (bin ++ join_with [32] ns))) blk.
+
+Theorem six_generators_mention_subcommands up bl c t d bin b ws ns n sc w :
+  nb c = true -> build (set_bin_name c bin) = Some b -> mangle_safe b bin ->
+  reach c ws ns n -> In sc (c_subs n) -> In w (get_name_and_visible_aliases sc) ->
+  bash_mentions c bin ns w /\
+  zsh_lists_subcommand bl c d bin ns w /\
+  ((List.length ws <= 2)%nat -> fish_offers_subcommand c d bin ws w) /\
+  powershell_mentions up c t bin ws (PowershellProofs.ps_sub w) /\
+  elvish_mentions c t bin ws (ElvishProofs.el_sub w) /\
+  nushell_declares c d bin (ns ++ [c_name sc]).
+Proof.
+  intros Hnb Hb Hm Hr Hsc Hw. pose proof (ms_root_ne _ _ Hm) as Hne.
+  destruct (reach_extends c ws ns n Hr b (generate_extends c bin b Hb)) as (n' & Hr' & Hext).
+  destruct (proj2 (extends_node n n' Hext) sc w Hsc Hw) as (sb & Hsb & Hwb & Hsext).
+  assert (Enm : c_name sb = c_name sc) by (inversion Hsext; assumption).
+  destruct (build_linked c bin b Hnb Hne Hb) as [Hbin Hl].
+  split; [|split; [|split; [|split; [|split]]]].
+  - (* bash *)
+    destruct (BashUser.bash_generate_table c bin b Hnb Hb Hm) as (tb & Ht & Hg & H).
+    destruct (H [] ws ns n' Hr') as (_ & k & Hk & Ho & _). exists b, tb, k. repeat split; try assumption.
+    apply (proj2 (opts_tokens_spec n' (k_opts k) Ho w)). right; right; right. exists sb. split; [exact Hsb|exact Hwb].
+  - (* zsh *)
+    pose proof (mangle_safe_zsh_ok c bin b Hnb Hb Hm) as Hok.
+    destruct (zsh_script_commands bl b (dbuild (set_bin_name c bin) d) bin n' Hok (reach_desc _ _ _ _ Hr')) as (s & nd & Es & Hs).
+    destruct (zipd_has cd0 (c_subs n') sb Hsb (cd_subs nd)) as [sd Hsd].
+    exists s, nd, n', (cd_about sd). split; [rewrite (generate_zsh_is_built bl c d bin b Hb); exact Es|].
+    split; [unfold bin_or_default; rewrite (reach_bin b ws ns n' Hr' bin Hbin Hl); reflexivity|]. split; [exact Hs|].
+    exact (subcommands_of_entry n' nd sb sd w Hsd Hwb).
+  - (* fish *)
+    intros Hlen. destruct (generate_fish_is_built c d bin b Hb) as [_ Hg].
+    destruct (fish_mentions b (dbuild (set_bin_name c bin) d) bin ws ns n' Hbin Hr' Hlen) as (lines & basic & Hli & Hbt & _ & Hsubs).
+    destruct (Hsubs sb w Hsb Hwb) as (line & Hin & Hhd & Hword).
+    exists b, n', lines, basic, line. repeat split; assumption.
+  - (* PowerShell *)
+    destruct (PowershellProofs.powershell_generate_covers up c t bin Hne) as (b' & script & Hb' & Hg & H).
+    rewrite Hb in Hb'. inversion Hb'; subst b'. destruct (H ws ns n' Hr') as (tn & Hblk & _ & _ & Hsub).
+    destruct (Hsub sb w Hsb Hwb) as [tip Htip].
+    exists script, (PathTable.entries (PowershellProofs.ps_fmt up) n' tn), tip. repeat split; assumption.
+  - (* elvish *)
+    destruct (ElvishProofs.elvish_generate_covers c t bin Hne) as (b' & script & Hb' & Hg & H).
+    rewrite Hb in Hb'. inversion Hb'; subst b'. destruct (H ws ns n' Hr') as (tn & Hblk & _ & _ & Hsub).
+    destruct (Hsub sb w Hsb Hwb) as [tip Htip].
+    exists script, (PathTable.entries ElvishProofs.el_fmt n' tn), tip. repeat split; assumption.
+  - (* nushell *)
+    destruct (NushellProofs.generate_nushell_covers_named c d bin Hnb Hne) as (b' & s & Hb' & Hg & H).
+    rewrite Hb in Hb'. inversion Hb'; subst b'.
+    assert (Hr2 : reach b (ws ++ [c_name sb]) (ns ++ [c_name sb]) sb).
+    { clear - Hr' Hsb. induction Hr' as [x|x y w0 ws0 ns0 m Hin Hw0 Hr0 IH].
+      - cbn [app]. eapply reach_cons; [exact Hsb|left; reflexivity|apply reach_nil].
+      - cbn [app]. eapply reach_cons; [exact Hin|exact Hw0|apply IH; exact Hsb]. }
+    destruct (H _ _ _ Hr2) as (blk & pre & post & Es & Hext' & _). rewrite Enm in Hext'.
+    exists s, blk, pre, post. split; [exact Hg|]. split; [exact Es|exact Hext'].
+Qed.
+
+Theorem subcommand_mentions_meaning bl c d bin ws ns w :
+  (zsh_lists_subcommand bl c d bin ns w <->
+     exists s nd n' about,
+       generate_zsh bl c d bin = Some s /\ bin_or_default n' = bin ++ join_with [32] ns /\
+       sublist (zrender (commands_function (bin_or_default n') (subcommands_of n' nd))) s /\
+       sublist (describe_entry about w) (subcommands_of n' nd)) /\
+  (fish_offers_subcommand c d bin ws w <->
+     exists b n' lines basic line,
+       build (set_bin_name c bin) = Some b /\ generate_fish c d bin = fish_script b (dbuild (set_bin_name c bin) d) /\
+       fish_lines b (dbuild (set_bin_name c bin) d) = Some lines /\
+       basic_template bin (fish_needs bin b) (fish_using bin b) ws n' = Some basic /\
+       In line lines /\ hd_error line = Some (Fx (sub_template basic n')) /\ In (sub_word w) line) /\
+  (nushell_declares c d bin ns <->
+     exists s blk pre post,
+       NushellModel.generate_nushell c d bin = Some s /\ s = NushellProofs.nrender (pre ++ blk ++ post) /\
+       In (NushellProofs.NFx (NushellProofs.extern_line (negb (is_nil ns)) (bin ++ join_with [32] ns))) blk).
+Proof. repeat split; intros H; exact H. Qed.
